@@ -50,9 +50,9 @@ static void run(unsigned accpat) {
     else if (op == 3) { unsigned r = vp_reserve(&out);
       VP_ASSERT(r == (unsigned)(next < MAXT && have[next] && !reserved), "try_reserve: succeeds iff the next number is buffered and not reserved");
       if (r) { VP_ASSERT(out == val[next], "reserved message is not the next one"); reserved = 1; } }
-    else if (op == 4) { if (!reserved) return; vp_release(); reserved = 0; last_offer_rejected = 0; }
-    else if (op == 5) { if (!reserved) return; vp_consume(); reserved = 0; have[next] = 0; next++; last_offer_rejected = 0; }
-    else if (op == 6) { if (!bag_n) return; run_one(); }
+    else if (op == 4) { if (!reserved) continue; vp_release(); reserved = 0; last_offer_rejected = 0; }
+    else if (op == 5) { if (!reserved) continue; vp_consume(); reserved = 0; have[next] = 0; next++; last_offer_rejected = 0; }
+    else if (op == 6) { if (!bag_n) continue; run_one(); }
     VP_ASSERT(vp_head() == next, "my_head differs from the number of messages emitted");
     VP_ASSERT((vp_reserved() != 0) == (reserved != 0), "reservation flag differs");
   }
